@@ -33,6 +33,7 @@ class CHECK(FloCheck):
     PROPERTY = "C05"
     LEAN_MODULES = ["IofloModel.Props.C05"]
     WANT = ("S", "Z")
+    SHARE = 0.08
     N_QUICK = 350
     N_THOROUGH = 12000
     N_SEARCH = 600
